@@ -38,6 +38,19 @@ def check_one(f: t.Any) -> t.Optional[t.Tuple[str, str]]:
     if r != f:
         shape = "shape" if type(r) is not type(f) else "value"
         return (f"reparse-differs:{type(f).__name__}:{shape}", f"text form {s!r} parses to {A.src(r)[:160]}")
+    # the parse result belongs to the caller: changing it must not change what the same text parses to next
+    touched = False
+    for lst in (getattr(r, "filters", None), getattr(r, "any", None)):
+        if isinstance(lst, list):
+            lst.append(lst[0] if lst else b"x")
+            touched = True
+    if touched:
+        try:
+            r3 = L.LDAPFilter.from_string(s)
+        except BaseException as e:  # noqa: BLE001
+            return (f"reparse-after-caller-change-raises:{type(e).__name__}", f"{s!r}: {e}")
+        if r3 != f:
+            return ("parse-result-shared-between-calls", f"after the caller changed the object returned for {s!r}, parsing the same text again gives {A.src(r3)[:160]}")
     try:
         tree = filt.strict_ok(s)
     except filt.Bad as e:
